@@ -370,7 +370,12 @@ theorem agree_extension_loop (env : Env) (cfg : Cfg) (n n' : Node) (ts : Int) (p
       (n.led.lastTs + cfg.interval) perm copy rid cfg.validator ts
       (Node.feesOf env cfg n ts (Node.keptOf env cfg n ts perm copy)) hu hf1 (by rw [hltx]; exact hf2) hf3
       c.utxos tip.ts ts (by rw [hltx]; exact hu')
-    unfold addBlock confirmLast
+    have hint : 0 < cfg.interval := by
+      rcases Node.fee_produce_some_after_tip hprod with hb | hlt
+      · rw [hchain] at hb; simp at hb
+      · rw [hlts] at hlt; omega
+    rw [addBlock_of_after_tip (Or.inr (by omega))]
+    unfold confirmLast
     simp only [List.getLast?_append, List.getLast?_singleton, Option.some_or]
     have : (Node.blockOf env cfg n c ts rid (Node.keptOf env cfg n ts perm copy)).txs =
         Node.keptOf env cfg n ts perm copy ++ [Node.rewardTx rid cfg.validator false ts
@@ -719,7 +724,12 @@ theorem agree_competitor_loop (env : Env) (cfg : Cfg) (n n' : Node) (ts : Int) (
       (n.led.lastTs + cfg.interval) perm copy rid cfg.validator ts
       (Node.feesOf env cfg n ts (Node.keptOf env cfg n ts perm copy)) hu hf1 (by rw [hltx]; exact hf2) hf3
       c.utxos tip.ts ts (by rw [hltx]; exact hu')
-    unfold addBlock confirmLast
+    have hint : 0 < cfg.interval := by
+      rcases Node.fee_produce_some_after_tip hprod with hb | hlt
+      · rw [hchain] at hb; simp at hb
+      · rw [hlts] at hlt; omega
+    rw [addBlock_of_after_tip (Or.inr (by omega))]
+    unfold confirmLast
     simp only [List.getLast?_append, List.getLast?_singleton, Option.some_or]
     have : (Node.blockOf env cfg n c ts rid (Node.keptOf env cfg n ts perm copy)).txs =
         Node.keptOf env cfg n ts perm copy ++ [Node.rewardTx rid cfg.validator false ts
@@ -836,7 +846,12 @@ theorem agree_last_iteration (env : Env) (cfg : Cfg) (n n' : Node) (ts : Int) (p
       (n.led.lastTs + cfg.interval) perm copy rid cfg.validator ts
       (Node.feesOf env cfg n ts (Node.keptOf env cfg n ts perm copy)) hu hf1 (by rw [hltx]; exact hf2) hf3
       c.utxos tip.ts ts (by rw [hltx]; exact hu')
-    unfold addBlock confirmLast
+    have hint : 0 < cfg.interval := by
+      rcases Node.fee_produce_some_after_tip hprod with hb | hlt
+      · rw [hchain] at hb; simp at hb
+      · rw [hlts] at hlt; omega
+    rw [addBlock_of_after_tip (Or.inr (by omega))]
+    unfold confirmLast
     simp only [List.getLast?_append, List.getLast?_singleton, Option.some_or]
     have : (Node.blockOf env cfg n c ts rid (Node.keptOf env cfg n ts perm copy)).txs =
         Node.keptOf env cfg n ts perm copy ++ [Node.rewardTx rid cfg.validator false ts
